@@ -1,6 +1,134 @@
 import TantivyModel.Driver.Proto
+import TantivyModel.Model.CommitProtocol
+/-!
+Line protocol of the C01 model.
+
+Tokens of a log (one per storage operation, in log order):
+  `c<p>` create   `w<p>:<n>` write   `f<p>` flush   `t<p>` terminate   `s` sync_directory
+  `a<p>:<commit>:<ver>:<len>:<refs>` atomic_write (refs `.`-separated or `-`)   `d<p>` delete
+  `k<c>` commit() returned opstamp c
+observations (checked against the visible layer, no effect):
+  `r<p>:<len|x>` open_read   `e<p>:<0|1>` exists   `g<p>:<len|x>` atomic_read
+
+Requests:
+  `check <tok>…`                 → `explained=<ok|i> viol=<i:r+r,…|-> acked=<n> started=<n>`
+  `images <k,k,…> <tok>…`        → per requested boundary k (state after the first k tokens), `#`-separated:
+                                   `k|acked|started|img;img;…`, img = `kind:subject:arg|rec|allowed|files|atoms`
+  `names`                        → extracted file names (hex), `;`-separated
+-/
 namespace TantivyModel.Driver.C01
-/-- stub: the model for C01 is not built yet -/
+open TantivyModel TantivyModel.Proto TantivyModel.Storage TantivyModel.CommitProtocol
+
+inductive Tok
+  | op (o : Op)
+  | obsRead (p : Path) (r : Option Nat)
+  | obsExists (p : Path) (b : Bool)
+  | obsAtomic (p : Path) (r : Option Nat)
+
+def natOf (s : String) : Option Nat := s.toNat?
+
+def optLen (s : String) : Option (Option Nat) := if s == "x" then some none else (s.toNat?).map some
+
+def refsOf (s : String) : Option (List Nat) :=
+  if s == "-" then some [] else (s.splitOn ".").mapM (fun t => t.toNat?)
+
+def parseTok (s : String) : Option Tok :=
+  match s.toList with
+  | [] => none
+  | c :: rest =>
+    let body := String.ofList rest
+    let parts := body.splitOn ":"
+    match c, parts with
+    | 's', [""] => some (.op .syncDir)
+    | 'c', [p] => (natOf p).map (fun p => .op (.create p))
+    | 'f', [p] => (natOf p).map (fun p => .op (.flush p))
+    | 't', [p] => (natOf p).map (fun p => .op (.terminate p))
+    | 'd', [p] => (natOf p).map (fun p => .op (.delete p))
+    | 'k', [p] => (natOf p).map (fun p => .op (.ack p))
+    | 'w', [p, n] => do some (.op (.write (← natOf p) (← natOf n)))
+    | 'a', [p, c, v, l, r] => do
+        some (.op (.atomicWrite (← natOf p) { commit := ← natOf c, ver := ← natOf v, len := ← natOf l, refs := ← refsOf r }))
+    | 'r', [p, l] => do some (.obsRead (← natOf p) (← optLen l))
+    | 'g', [p, l] => do some (.obsAtomic (← natOf p) (← optLen l))
+    | 'e', [p, b] => do
+        let b ← natOf b
+        if b > 1 then none else some (.obsExists (← natOf p) (b == 1))
+    | _, _ => none
+
+def initState : PState := { dir := Dir.empty, acked := 0, started := 0 }
+
+def explains (s : PState) : Tok → Bool
+  | .op _ => true
+  | .obsRead p r => s.dir.readLen p == r
+  | .obsAtomic p r => s.dir.readLen p == r
+  | .obsExists p b => s.dir.existsP p == b
+
+def stepTok (s : PState) : Tok → PState
+  | .op o => s.step o
+  | _ => s
+
+def showRules (rs : List Rule) : String := "+".intercalate (rs.map (fun r => toString r.name))
+
+/-- walks the log: first unexplained observation, all discipline violations -/
+def walk : PState → List Tok → Nat → Option Nat → List String → (PState × Option Nat × List String)
+  | s, [], _, un, vs => (s, un, vs.reverse)
+  | s, t :: ts, i, un, vs =>
+    let un' := match un with
+      | some x => some x
+      | none => if explains s t then none else some i
+    let vs' := match t with
+      | .op o => match violations s o with
+        | [] => vs
+        | rs => (toString i ++ ":" ++ showRules rs) :: vs
+      | _ => vs
+    walk (stepTok s t) ts (i + 1) un' vs'
+
+def showFile (e : Path × Option (Nat × Bool)) : Option String :=
+  match e.2 with
+  | none => none
+  | some (n, sl) => some (toString e.1 ++ ":" ++ toString n ++ ":" ++ showBool sl)
+
+def showAtom (e : Path × Option Payload) : Option String :=
+  match e.2 with
+  | none => none
+  | some b => some (toString e.1 ++ ":" ++ toString b.ver)
+
+def joinOr (sep : String) (l : List String) : String := if l.isEmpty then "-" else sep.intercalate l
+
+def showImage (s : PState) (ni : NamedImage) : String :=
+  let rec' := match recover ni.img.toImage with | some j => toString j | none => "x"
+  toString ni.kind ++ ":" ++ toString ni.subject ++ ":" ++ toString ni.arg ++ "|" ++ rec' ++ "|" ++
+    showBool (ni.img.allowed s.dir) ++ "|" ++ joinOr "," (ni.img.files.filterMap showFile) ++ "|" ++
+    joinOr "," (ni.img.atoms.filterMap showAtom)
+
+def imagesAt (ks : List Nat) : PState → List Tok → Nat → List String → List String
+  | s, ts, i, acc =>
+    let acc' := if ks.contains i then
+        (toString i ++ "|" ++ toString s.acked ++ "|" ++ toString s.started ++ "|" ++
+          ";".intercalate ((quickImages s.dir).map (showImage s))) :: acc
+      else acc
+    match ts with
+    | [] => acc'.reverse
+    | t :: ts' => imagesAt ks (stepTok s t) ts' (i + 1) acc'
+
+def hexOfNats (l : List Nat) : String := hexOfBytes (l.map UInt8.ofNat)
+
 def handle : List String → String
+  | "check" :: toks =>
+    match toks.mapM parseTok with
+    | none => "bad-op"
+    | some ts =>
+      let (s, un, vs) := walk initState ts 0 none []
+      "explained=" ++ (match un with | none => "ok" | some i => toString i) ++ " viol=" ++ joinOr "," vs ++
+        " acked=" ++ toString s.acked ++ " started=" ++ toString s.started
+  | "images" :: ks :: toks =>
+    match natList ks, toks.mapM parseTok with
+    | some ks, some ts => joinOr "#" (imagesAt ks initState ts 0 [])
+    | _, _ => "bad-op"
+  | ["names"] =>
+    ";".intercalate ([Gen.META_NAME, Gen.MANAGED_NAME, Gen.INDEX_WRITER_LOCK_NAME, Gen.META_LOCK_NAME, Gen.DELETE_SUFFIX]
+      ++ Gen.COMPONENT_SUFFIXES |>.map hexOfNats) ++ ";" ++ toString Gen.TEMPSTORE_INDEX ++ ";" ++
+      showBool Gen.INDEX_WRITER_LOCK_BLOCKING ++ showBool Gen.META_LOCK_BLOCKING ++ ";" ++ toString Gen.UNMANAGED_PREFIX
   | _ => "bad-op"
+
 end TantivyModel.Driver.C01
